@@ -7,7 +7,7 @@ R16.4 PutToTargetPeersContext reports success only with quorum, counts a success
 """
 import re
 from paths import refine_cuts, region_uncovered
-from common import for_loops, exit_desc, short, field_calls
+from common import slice_locals, for_loops, exit_desc, short, field_calls
 import guards
 
 EXPLANATION = ("Error-discipline rules over all MIR CFG paths of the Kademlia event handlers: a failed attempt to contact a peer must be "
@@ -385,8 +385,15 @@ def _r16_4(ctx, fx, mod_, ty, okm, tag):
                detail="comparisons found: %s" % [(fn.site(n), rel) for n, d, rel in cmps])
     fn = ctx.fn(fx, T + "is_finished", "R16.4")
     if fn is not None:
-        c = fn.calls(r"HashSet::is_empty$")
+        c = fn.calls(r"HashSet(<.*>)?::is_empty$")
         ok = len(c) == 1 and ".pending_peers" in fn.recv(c[0]) and c[0].dest == [0]
+        if not ok:
+            # `self.pending_peers.len() == 0`
+            ln = [x for x in fn.calls(r"HashSet(<.*>)?::len$") if ".pending_peers" in fn.recv(x)]
+            d0 = fn.single_def(0)
+            if len(ln) == 1 and d0 is not None and d0[1] == "assign" and d0[2]["rv"]["r"] == "bin" and d0[2]["rv"]["op"] == "Eq":
+                a, b = d0[2]["rv"]["a"], d0[2]["rv"]["b"]
+                ok = any(ln[0].dest[0] in slice_locals(fn, x) and fn.const_value(y) == 0 for x, y in ((a, b), (b, a)))
         ctx.ob("R16.4", tag + "is_finished/pending_peers-empty", ok, site=fn.site(fn.entry), cfg=fx.cfg, detail="returns pending_peers.is_empty()")
     fn = ctx.fn(fx, T + okm, "R16.4")
     if fn is not None:
